@@ -168,8 +168,11 @@ def compare(pred, obs, world):
                 msg = "slot %s %s memory with %s, model says %s" % (
                     world.slot_name(i), "shares" if p != k else "does not share", names[k],
                     "alias" if p == k else "separate")
-                if p != k and i >= world.nret and k < world.nargs:
-                    world.unpredicted_aliases.append((i, k, msg))   # stored state is a view of a caller array
+                if p != k and k < world.nargs:
+                    if i >= world.nret:
+                        world.unpredicted_aliases.append((i, k, msg))   # stored state is a view of a caller array
+                    else:
+                        world.other_mismatch = world.other_mismatch or msg   # a returned array aliases it
                     continue
                 return None, msg
         for j in range(i + 1, len(ps)):
@@ -180,6 +183,8 @@ def compare(pred, obs, world):
                     world.slot_name(i), world.slot_name(j), shares(o, os_[j]), p == ps[j])
     if world.unpredicted_aliases:
         return None, world.unpredicted_aliases[0][2]
+    if world.other_mismatch:
+        return None, world.other_mismatch
     return None, None
 
 
@@ -223,23 +228,39 @@ REGRESSION = [
     ("geo_tool", [12, 0, 1]),            # great_circle_to_chordal beyond half the circumference (seed C20-10)
     ("model_eval", [0, 3, 0]),           # isometrize of a lat-lon + time model with time anisotropy != 1
     ("model_eval", [1, 3, 0]),
+    ("field_call", [0, 1, 0, 0, 0, 0, 0]),          # field=<view of the caller's buffer>, post_process=False (seed C20-12)
+    ("post_field", [0, 0, 1, 0]),
+    ("condsrf_call", [0, 0, 1, 0, 1, 0, 0, 1, 1]),  # ext_drift given with the call, same positions again (seed C20-14)
+    ("condsrf_call", [0, 0, 1, 0, 1, 0, 1, 0, 1]),
+    ("mean_trend", [0, 0, 0]),                      # vector mean array given to the constructor
+    ("mean_trend", [1, 1, 0]),
 ]
 
 
 def select_cases(drv, rng, tier):
-    """(entry name, cfg, variants) to run.  thorough: every configuration; quick: every configuration of
-    the small entry points and a seeded sample of the large ones (the theorem covers all of them)."""
-    budget = dict(quick=E.QUICK_BUDGET, thorough=None)[tier]
+    """(entry name, cfg) to run; the last digit of cfg is the view kind of the float64 arguments.
+    thorough: every base configuration - with all three view kinds for entry points with at most 200 base
+    configurations, with one (rotating) view kind for the larger ones; quick: every configuration of the small
+    entry points and a seeded sample of the large ones (the theorem covers all of them)."""
     cases = []
     for name in E.ENTRY_NAMES:
         eid = E.ENTRY_NAMES.index(name)
         dims = [int(x) for x in np.atleast_1d(drv.call("dims", ("n", eid)))]
-        if dims != E.DIMS[name]:
-            raise RuntimeError("configuration space of %s differs between model %s and harness %s" % (name, dims, E.DIMS[name]))
-        cfgs = all_cfgs(dims)
-        if budget is not None and len(cfgs) > budget.get(name, 10 ** 9):
-            idx = rng.choice(len(cfgs), size=budget[name], replace=False)
-            cfgs = [cfgs[i] for i in sorted(idx)]
+        if dims != E.DIMS[name] + [3]:
+            raise RuntimeError("configuration space of %s differs between model %s and harness %s" % (name, dims, E.DIMS[name] + [3]))
+        base = all_cfgs(E.DIMS[name])
+        if tier == "thorough":
+            off = int(rng.integers(3))
+            if len(base) <= 200:
+                cfgs = [c + [v] for c in base for v in range(3)]
+            else:
+                cfgs = [c + [(i + off) % 3] for i, c in enumerate(base)]
+        else:
+            cfgs = [c + [int(rng.integers(3))] for c in base]
+            b = E.QUICK_BUDGET.get(name, 10 ** 9)
+            if len(cfgs) > b:
+                idx = rng.choice(len(cfgs), size=b, replace=False)
+                cfgs = [cfgs[i] for i in sorted(idx)]
         cases += [(name, c) for c in cfgs]
     return cases
 
@@ -252,6 +273,11 @@ def run_case(ctx, drv, name, cfg, rng, variant, readonly, stats):
         stats["tie"].append(dict(entry=name, cfg=cfg, what="number of initial buffers: model %d, harness %d" % (pred["n0"], world.n0)))
         return
     obs = observe(world, readonly)
+    if obs["raised"] and not pred["raised"] and (obs["exc"] or "").startswith("RuntimeError: Optimal parameters not found"):
+        # scipy's curve_fit did not converge on this random data (external optimiser, not an effect of the call):
+        # nothing to compare for the tie, but the caller's arrays must still be untouched
+        stats["not_converged"] = stats.get("not_converged", 0) + 1
+        pred = dict(pred, raised=True)
     viol, tie = compare(pred, obs, world)
     stats["n"] += 1
     if world.unpredicted_aliases and not viol:
@@ -317,11 +343,13 @@ def run(ctx, only=None):
     try:
         if drv is not None:
             # 1. regression cases (the configurations that refuted the pinned tree), every variant, both modes
-            for name, cfg in REGRESSION:
-                for variant in range(E.N_VARIANTS):
-                    for ro in (False, True):
-                        run_case(ctx, drv, name, cfg, rng, variant, ro, stats)
-                        ctx.count(cfg_key(name, cfg), hist=dict(entry=name, mode="ro" if ro else "bytes", stage="regression"))
+            for name, cfg0 in REGRESSION:
+                for view in range(3):
+                    cfg = list(cfg0) + [view]
+                    for variant in range(E.N_VARIANTS):
+                        for ro in (False, True):
+                            run_case(ctx, drv, name, cfg, rng, variant, ro, stats)
+                            ctx.count(cfg_key(name, cfg), hist=dict(entry=name, mode="ro" if ro else "bytes", stage="regression"))
             # 2. sweep
             cases = select_cases(drv, rng, ctx.tier)
             if only:
@@ -334,7 +362,8 @@ def run(ctx, only=None):
                     # entry points with at most 2000 configurations, a rotating one for the large ones
                     small = E.CFG_COUNT[name] <= 2000
                     runs = [((i + off) % E.N_VARIANTS, False), ((i + off) % E.N_VARIANTS, True)]
-                    if (name == "krige_call" and i % 3) or (name in ("vario_estimate", "srf_call", "transform") and i % 2):
+                    if (name == "krige_call" and i % 4) or (name == "condsrf_call" and i % 3) or (
+                            name in ("vario_estimate", "srf_call", "transform") and i % 2):
                         runs = runs[:1]        # the largest spaces: read-only mode on every 3rd / 2nd configuration
                     if small:
                         runs += [((i + off + 1) % E.N_VARIANTS, False)]
@@ -350,6 +379,8 @@ def run(ctx, only=None):
                 if i % 997 == 0:
                     ctx.sample(dict(entry=name, cfg=cfg, options=E.describe(name, cfg)))
             ctx.notes.append("sweep: %d implementation runs in %.1fs" % (stats["n"], time.time() - t0))
+            if stats.get("not_converged"):
+                ctx.notes.append("curve_fit did not converge in %d runs (only the caller-array comparison was made there)" % stats["not_converged"])
         # 3. probes that do not need the model
         E.history_probe(ctx, rng)
         E.readonly_extras(ctx, rng)
@@ -395,7 +426,7 @@ def replay(ctx, path):
 
 ENTRY_NAMES = ["vario_estimate", "vario_estimate_axis", "standard_bins", "field_call", "post_field",
                "apply_mean_norm_trend", "remove_trend_norm_mean", "transform", "srf_call", "krige_condition",
-               "krige_call", "condsrf_call", "fit_variogram", "normalizer", "generator", "array_fn", "covmodel", "geo_tool", "model_eval"]
+               "krige_call", "condsrf_call", "fit_variogram", "normalizer", "generator", "array_fn", "covmodel", "geo_tool", "model_eval", "mean_trend"]
 DIMS = {
     "vario_estimate": [2, 3, 3, 2, 3, 2, 2, 2, 2, 2, 2, 2, 3],
     "vario_estimate_axis": [2, 3, 2, 2, 2],
@@ -408,7 +439,7 @@ DIMS = {
     "srf_call": [3, 3, 2, 2, 3, 2, 4, 4],
     "krige_condition": [3, 3, 3, 4, 2, 2, 2],
     "krige_call": [3, 2, 4, 2, 2, 2, 3, 2, 2, 4],
-    "condsrf_call": [3, 2, 2, 3, 2, 2, 2, 4],
+    "condsrf_call": [3, 2, 2, 3, 2, 2, 2, 4, 3],
     "fit_variogram": [3, 3, 4, 2, 2, 2],
     "normalizer": [7, 6, 2, 2, 2, 3],
     "generator": [3, 2, 2, 2],
@@ -416,6 +447,7 @@ DIMS = {
     "covmodel": [6, 4, 5, 5, 4],
     "geo_tool": [16, 3, 3],
     "model_eval": [7, 4, 3],
+    "mean_trend": [2, 2, 3],
 }
 DIGIT_NAMES = {
     "vario_estimate": ["pos", "field", "bin_edges", "mask", "direction", "angles", "latlon", "geo_scale!=1", "mean+trend+normalizer",
@@ -431,7 +463,7 @@ DIGIT_NAMES = {
     "krige_condition": ["cond_pos", "cond_val", "ext_drift", "cond_err", "fit_variogram", "mean+trend+normalizer", "set_condition"],
     "krige_call": ["pos", "structured", "ext_drift", "only_mean", "return_var", "post_process", "store", "chunked",
                    "mean+trend+normalizer", "history"],
-    "condsrf_call": ["pos", "structured", "post_process", "store", "krige_store", "mean+trend+normalizer", "nugget", "history"],
+    "condsrf_call": ["pos", "structured", "post_process", "store", "krige_store", "mean+trend+normalizer", "nugget", "history", "ext_drift"],
     "fit_variogram": ["x_data", "y_data", "weights", "directional", "latlon", "return_r2"],
     "normalizer": ["class", "method", "data", "nan", "out_of_range", "parameters"],
     "generator": ["generator", "pos", "nugget", "options"],
@@ -439,8 +471,9 @@ DIGIT_NAMES = {
     "covmodel": ["operation", "model_kind", "angles", "anis", "len_scale"],
     "geo_tool": ["function", "array", "options"],
     "model_eval": ["method", "model_kind", "array"],
+    "mean_trend": ["operation", "attribute", "value"],
 }
-QUICK_BUDGET = {"vario_estimate": 3000, "krige_call": 400, "srf_call": 300, "krige_condition": 200, "condsrf_call": 200,
+QUICK_BUDGET = {"vario_estimate": 3000, "krige_call": 400, "srf_call": 300, "krige_condition": 200, "condsrf_call": 300,
                 "field_call": 300, "fit_variogram": 60, "normalizer": 200, "transform": 360, "covmodel": 500}
 N_VARIANTS = 3
 CFG_COUNT = {k: int(np.prod(v)) for k, v in DIMS.items()}
@@ -448,24 +481,61 @@ CFG_COUNT = {k: int(np.prod(v)) for k, v in DIMS.items()}
 A_POS, A_FIELD, A_A, A_B, A_CPOS, A_CVAL, A_CEXT, A_CERR, A_KPOS, A_KMAT, A_KVAR, A_MEANF = range(12)
 C_FIELD, C_RAWF, C_RAWK, C_X, C_Y, C_Z = range(20, 26)
 G_PERIOD = 30
-M_ANIS, M_ANGLES = 40, 41
+M_ANIS, M_ANGLES, M_MEAN, M_TREND = 40, 41, 42, 43
+C_REFEXT, C_REFEXT_Z = 26, 27
 ATTR_NAME = {A_POS: "pos", A_FIELD: "field", A_A: "a", A_B: "b", A_CPOS: "_cond_pos", A_CVAL: "_cond_val",
              A_CEXT: "_cond_ext_drift", A_CERR: "_cond_err", A_KPOS: "_krige_pos", A_KMAT: "_krige_mat",
              A_KVAR: "krige_var", A_MEANF: "mean_field", C_FIELD: "field", C_RAWF: "raw_field", C_RAWK: "raw_krige",
-             C_X: "x", C_Y: "y", C_Z: "z", G_PERIOD: "_period", M_ANIS: "_anis", M_ANGLES: "_angles"}
+             C_X: "x", C_Y: "y", C_Z: "z", G_PERIOD: "_period", M_ANIS: "_anis", M_ANGLES: "_angles", M_MEAN: "_mean", M_TREND: "_trend",
+             C_REFEXT: "_krige_ref[raw_krige].ext_drift", C_REFEXT_Z: "_krige_ref[z].ext_drift"}
 OBS_ATTRS = {
     "field_call": [A_POS, A_FIELD, A_A], "post_field": [A_POS, A_FIELD, A_A], "srf_call": [A_POS, A_FIELD, A_A],
     "transform": [A_FIELD, A_B],
     "krige_condition": [A_CPOS, A_CVAL, A_CEXT, A_CERR, A_KPOS, A_KMAT],
     "krige_call": [A_POS, A_FIELD, A_KVAR, A_MEANF, A_A, A_B],
-    "condsrf_call": [A_POS, C_FIELD, C_RAWF, C_RAWK, C_X, C_Y, C_Z, A_FIELD, A_KVAR],
+    "condsrf_call": [A_POS, C_FIELD, C_RAWF, C_RAWK, C_X, C_Y, C_Z, A_FIELD, A_KVAR, C_REFEXT, C_REFEXT_Z],
     "generator": [G_PERIOD],
     "covmodel": [M_ANIS, M_ANGLES],
+    "mean_trend": [M_MEAN, M_TREND],
 }
 
 
+VIEW_NAMES = ["own data", "contiguous view (row / ravel / reshape of an n-D array)", "strided view (column / slice with step)"]
+CUR_VIEW = 0
+
+
 def describe(name, cfg):
-    return dict(zip(DIGIT_NAMES[name], cfg))
+    d = dict(zip(DIGIT_NAMES[name], cfg))
+    if len(cfg) > len(DIGIT_NAMES[name]):
+        d["float64 arguments held as"] = VIEW_NAMES[cfg[len(DIGIT_NAMES[name])]]
+    return d
+
+
+def as_view(vals, kind=None, variant=0):
+    """float64 array with the values of `vals`, held by the caller as kind 0 an array that owns its data,
+    1 a contiguous view (row / slab of a bigger array, reshape or ravel of an n-D array), 2 a strided view
+    (column of a table, slice with a step, transposed buffer).  The shape is the shape of vals."""
+    kind = CUR_VIEW if kind is None else kind
+    vals = np.ascontiguousarray(vals, dtype=np.double)
+    shape = vals.shape
+    if kind == 0 or vals.ndim == 0:
+        return vals.copy()
+    if kind == 1:
+        if variant == 0:
+            big = np.zeros((3,) + shape); v = big[1]                       # row / slab of a bigger array
+        elif variant == 1:
+            flat = np.zeros(2 * vals.size + 4); v = flat[2:2 + vals.size].reshape(shape)   # reshape of a slice
+        else:
+            nd = np.zeros((2, vals.size, 1)); v = nd.ravel()[vals.size:].reshape(shape)     # ravel of an n-D array
+    else:
+        if variant == 0:
+            big = np.zeros(shape + (3,)); v = big[..., 1]                   # column of a C-ordered table
+        elif variant == 1:
+            big = np.zeros(shape[:-1] + (2 * shape[-1] + 1,)); v = big[..., 1::2]            # slice with step
+        else:
+            v = np.zeros(shape[::-1]).T if vals.ndim > 1 else np.zeros(vals.size + 2)[::-1][1:-1]   # transposed / reversed
+    v[...] = vals
+    return v
 
 
 def nontrivial(name, cfg):
@@ -477,6 +547,8 @@ def nontrivial(name, cfg):
         return d["array"] < 2
     if name in ("transform", "post_field", "condsrf_call", "krige_call"):
         return True
+    if name == "mean_trend":
+        return d["value"] == 0
     if d.get("history", 0):
         return True
     for k in alias_digits:
@@ -498,6 +570,7 @@ class World:
         self.name = name
         self.nargs = nargs
         self.unpredicted_aliases = []
+        self.other_mismatch = None
         self.result_probe = None    # optional: () -> array computed from the stored state
         self.cells = [[] for _ in range(nargs)]
         self.cell_names = ["arg%d" % i for i in range(nargs)]
@@ -521,6 +594,10 @@ class World:
 
     def attr(self, a):
         obj = self.objs.get(a, self.obj)
+        if a in (C_REFEXT, C_REFEXT_Z):     # the ext_drift remembered by CondSRF for its reuse test
+            ref = getattr(obj, "_krige_ref", {}).get("raw_krige" if a == C_REFEXT else "z")
+            v = ref[4] if (ref is not None and len(ref) > 4) else None
+            return v if isinstance(v, np.ndarray) else None
         nm = ATTR_NAME[a]
         if a in (A_FIELD, A_A, A_B, A_KVAR, A_MEANF, C_FIELD, C_RAWF, C_RAWK, C_X, C_Y, C_Z):
             if nm not in obj.field_names:
@@ -550,6 +627,9 @@ def mk_lay(values, lay, variant, reshape=True, lead=0, ndarray_only=False):
     lay 2 a conversion copy.  Returns (object to pass, list of caller-held ndarrays)."""
     values = np.ascontiguousarray(values, dtype=np.double)
     shape = values.shape
+    if lay == 0 and CUR_VIEW:
+        v = as_view(values, CUR_VIEW, variant)
+        return v, [v]
     if lay == 0:
         if variant == 1:
             big = np.zeros(values.size + 5)
@@ -661,7 +741,7 @@ def real_vario_estimate(cfg, rng, variant):
     elif not mtn:
         fv.flat[2] = -0.0
     if kind == 0:
-        field = fv.copy(); w.arg(1, "field", [field])
+        field = as_view(fv, None, variant); w.arg(1, "field", [field])
     elif kind == 1:
         field = fv.astype(np.float32) if variant != 1 else fv.tolist()
         w.arg(1, "field", [field] if isinstance(field, np.ndarray) else [])
@@ -674,7 +754,7 @@ def real_vario_estimate(cfg, rng, variant):
         top = (6000.0 if geo else 1.0) if latlon else 6.0
         bev = np.linspace(0.0, top, 4)
         if be == 1:
-            kw["bin_edges"] = bev; w.arg(3, "bin_edges", [bev])
+            bev = as_view(bev, None, variant); kw["bin_edges"] = bev; w.arg(3, "bin_edges", [bev])
         else:
             kw["bin_edges"] = bev.tolist() if variant != 2 else bev.astype(np.float32)
             w.arg(3, "bin_edges", [kw["bin_edges"]] if isinstance(kw["bin_edges"], np.ndarray) else [])
@@ -683,6 +763,8 @@ def real_vario_estimate(cfg, rng, variant):
         kw["mask"] = mk; w.arg(4, "mask", [mk])
     if dr:
         dv = np.array([[1.0, 0.0], [0.0, 1.0]]) if variant != 2 else np.array([1.0, 1.0])
+        if dr == 1:
+            dv = as_view(dv, None, variant)
         kw["direction"] = dv if dr == 1 else dv.tolist()
         w.arg(5, "direction", [dv] if dr == 1 else [])
     if ang:
@@ -721,7 +803,7 @@ def real_vario_estimate_axis(cfg, rng, variant):
     fv = rng.uniform(1.0, 2.0, (4, 6))
     if missing:
         fv[1, 2] = -999.0 if nodata else np.nan
-    data = fv if f64 == 0 else fv.astype(np.float32)
+    data = as_view(fv, None, variant) if f64 == 0 else fv.astype(np.float32)
     if kind == 0:
         field = data
     elif kind == 1:
@@ -905,7 +987,7 @@ def real_transform(cfg, rng, variant):
         obj(pv, mesh_type=mt, return_var=False)
     else:       # the stored field IS the caller's array (stored without post-processing)
         obj = gs.field.Field(the_model(), **kw)
-        arr = rng.uniform(1.0, 2.0, fshape)
+        arr = as_view(rng.uniform(1.0, 2.0, fshape), None, variant)
         obj(pv, field=arr, mesh_type=mt, post_process=False)
         caller_arr = [arr]
     w.obj = obj
@@ -1114,13 +1196,15 @@ def real_krige_call(cfg, rng, variant):
 # ---- CondSRF.__call__
 def real_condsrf_call(cfg, rng, variant):
     import gstools as gs
-    play, structured, pp, store, kstore, mtn, nugget, hist = cfg
-    w = World("condsrf_call", 1)
+    play, structured, pp, store, kstore, mtn, nugget, hist, ext = cfg
+    w = World("condsrf_call", 2)
     n = 8
     stk = variant == 2
     cpv, cvv = cond_values(rng, n, stk)
-    k = gs.krige.Krige(the_model(nugget=0.2 if nugget else 0.0, st=stk), cpv, cvv, **mtn_kwargs(mtn))
-    c = gs.CondSRF(k, seed=int(rng.integers(1 << 30)), mode_no=20)
+    cext = rng.normal(size=n) if ext else None
+    k = gs.krige.Krige(the_model(nugget=0.2 if nugget else 0.0, st=stk), cpv, cvv, ext_drift=cext, **mtn_kwargs(mtn))
+    gseed = int(rng.integers(1 << 30))
+    c = gs.CondSRF(k, seed=gseed, mode_no=20)
     w.obj = c
     for a in (A_POS, A_FIELD, A_KVAR, A_CPOS, A_CVAL, A_CEXT, A_KPOS, A_KMAT):
         w.objs[a] = k
@@ -1128,12 +1212,17 @@ def real_condsrf_call(cfg, rng, variant):
     for a in (A_CPOS, A_CVAL, A_CEXT, A_KPOS, A_KMAT):
         w.pre(a, [getattr(k, ATTR_NAME[a])])
     pv0, fshape = base_values(rng, structured, st=stk)
+    npts = int(np.prod(fshape))
+    extv = f32exact(rng.normal(size=npts))       # the drift values at the target points (the same in the earlier call)
+    ekw = {}
     if hist:
-        c(pv0, mesh_type=mt)
+        c(pv0, mesh_type=mt, **(dict(ext_drift=extv.copy()) if ext else {}))
         p = k.pos
         w.pre(A_POS, list(p) if isinstance(p, tuple) else [p])
         w.pre(C_FIELD, [c.field]); w.pre(C_RAWF, [c.raw_field]); w.pre(C_RAWK, [c.raw_krige])
         w.pre(A_FIELD, [k.field], label="krige.field"); w.pre(A_KVAR, [k.krige_var], label="krige.krige_var")
+        if ext:
+            w.pre(C_REFEXT, [c._krige_ref["raw_krige"][4]])
     if hist == 1:
         pv = tuple(a.copy() for a in pv0) if structured else pv0.copy()
     elif hist == 2:
@@ -1144,8 +1233,25 @@ def real_condsrf_call(cfg, rng, variant):
         pv = pv0
     pos = mk_pos_opt(w, pv, play, variant, structured)
     st = {0: True, 1: ["x", "y", "z"], 2: False}[store]
+    if ext:
+        if ext == 1:
+            e = as_view(extv, None, variant) if (CUR_VIEW or variant != 1) else as_view(extv.reshape(fshape), 0)
+            ekw["ext_drift"] = e; w.arg(1, "ext_drift", [e])
+        else:
+            e = extv.astype(np.float32) if variant != 1 else extv.tolist()
+            ekw["ext_drift"] = e; w.arg(1, "ext_drift", [e] if isinstance(e, np.ndarray) else [])
+        def stale():
+            """conditioned field on the stored positions with the caller's (possibly edited) drift array minus the
+            field of a FRESH CondSRF with the same conditions, seed and drift: zero unless stale kriging is reused"""
+            got = c(seed=11, ext_drift=ekw["ext_drift"], store=False, krige_store=False)
+            k2 = gs.krige.Krige(the_model(nugget=0.2 if nugget else 0.0, st=stk), cpv, cvv, ext_drift=cext, **mtn_kwargs(mtn))
+            c2 = gs.CondSRF(k2, seed=gseed, mode_no=20)
+            ref = c2(k.pos, seed=11, mesh_type=k.mesh_type, ext_drift=np.array(ekw["ext_drift"], dtype=float),
+                     store=False, krige_store=False)
+            return np.round(got - ref, 9)
+        w.result_probe = stale if not nugget else None
     w.nret = 1
-    w.call = lambda: [c(pos, seed=11, mesh_type=mt, post_process=bool(pp), store=st, krige_store=bool(kstore))]
+    w.call = lambda: [c(pos, seed=11, mesh_type=mt, post_process=bool(pp), store=st, krige_store=bool(kstore), **ekw)]
     return w
 
 
@@ -1211,7 +1317,7 @@ def real_normalizer(cfg, rng, variant):
         vals.flat[1] = np.nan
     if oor:
         vals.flat[2] = -5.0
-    data = vals if dd == 0 else vals.astype(np.float32)
+    data = as_view(vals, None, variant) if dd == 0 else vals.astype(np.float32)
     w.arg(0, "data", [data])
     m = NORM_METHODS[meth]
     w.nret = 1 if meth < 3 else 0
@@ -1542,6 +1648,49 @@ def real_model_eval(cfg, rng, variant):
     return w
 
 
+# ---- mean / trend arrays given to Field / SRF / Krige (constructor and attribute setters)
+def real_mean_trend(cfg, rng, variant):
+    import gstools as gs
+    op, which, val = cfg
+    w = World("mean_trend", 1)
+    nm = ["mean", "trend"][which]
+    if val == 2:
+        value = 1.5
+    else:
+        vec = rng.uniform(1.0, 2.0, 2)
+        value, h = (as_view(vec, None, variant), None) if val == 0 else ((vec.tolist() if variant != 1 else vec.astype(np.float32)), None)
+        w.arg(0, nm, [value] if isinstance(value, np.ndarray) else [])
+    model = the_model()
+    holder = {}
+
+    class Late:
+        field_names = []
+
+        def __getattr__(self, a):
+            return getattr(holder["o"], a)
+    w.obj = Late()
+    w.nret = 0
+
+    def build(**kw):
+        if variant == 1:
+            return gs.field.Field(model, value_type="vector", **kw)
+        return gs.SRF(model, generator="VectorField", seed=3, mode_no=20, **kw)
+    if op == 0:
+        def call():
+            holder["o"] = build(**{nm: value})
+            return []
+    else:
+        o = build(mean=np.array([0.5, 0.7]), trend=np.array([0.1, 0.2]))
+        holder["o"] = o
+        w.pre(M_MEAN, [o.mean]); w.pre(M_TREND, [o.trend])
+
+        def call():
+            setattr(o, nm, value)
+            return []
+    w.call = call
+    return w
+
+
 REALISERS = {
     "vario_estimate": real_vario_estimate, "vario_estimate_axis": real_vario_estimate_axis,
     "standard_bins": real_standard_bins, "field_call": real_field_call, "post_field": real_post_field,
@@ -1551,11 +1700,18 @@ REALISERS = {
     "krige_call": real_krige_call, "condsrf_call": real_condsrf_call, "fit_variogram": real_fit_variogram,
     "normalizer": real_normalizer, "generator": real_generator, "array_fn": real_array_fn,
     "covmodel": real_covmodel, "geo_tool": real_geo_tool, "model_eval": real_model_eval,
+    "mean_trend": real_mean_trend,
 }
 
 
 def realise(name, cfg, rng, variant):
-    return REALISERS[name](list(cfg), rng, variant)
+    global CUR_VIEW
+    cfg = list(cfg)
+    CUR_VIEW = cfg[-1]          # how float64 arguments are held: 0 own data / 1 contiguous view / 2 strided view
+    try:
+        return REALISERS[name](cfg[:-1], rng, variant)
+    finally:
+        CUR_VIEW = 0
 
 
 # --------------------------------------------------------------------------- probes without the model
@@ -1674,6 +1830,20 @@ def readonly_extras(ctx, rng):
             "array_to_lognormal", "array_zinnharvey", "array_force_moments", "array_to_uniform", "array_to_arcsin",
             "array_to_uquad", "array_boxcox")] + [gs.transform.array_discrete(ro(rng.normal(size=n)), ro([1.0, 2.0, 3.0]))]),
     ]
+    # dict arguments of fit_variogram are the caller's objects as well: they must come back unchanged
+    import copy
+    ig = {"default": "current", "len_scale": 2.0, "anis": [0.9]}
+    ckw = {"ftol": 1e-9}
+    ig0, ckw0 = copy.deepcopy(ig), copy.deepcopy(ckw)
+    xb = np.linspace(0.5, 8.0, 8)
+    for rep in range(2):
+        gs.Exponential(dim=2).fit_variogram(xb, 1.2 * (1 - np.exp(-xb / 2.0)), init_guess=ig, curve_fit_kwargs=ckw)
+    ctx.count(("readonly-extra", "fit_variogram dict arguments"), hist=dict(entry="extra:fit_variogram dicts"))
+    if ig != ig0 or ckw != ckw0:
+        ctx.violation("probe: dict arguments", "fit_variogram changed the caller's %s dict: %r -> %r" % (
+            ("init_guess", ig0, ig) if ig != ig0 else ("curve_fit_kwargs", ckw0, sorted(ckw))),
+            dict(init_guess_before=ig0, init_guess_after={k: (v if not isinstance(v, np.ndarray) else v.tolist()) for k, v in ig.items()},
+                 seed=ctx.seed), key="extra:fit_variogram:dict-arguments")
     for name, fn in probes:
         ctx.count(("readonly-extra", name), hist=dict(entry="extra:" + name))
         try:
